@@ -16,28 +16,27 @@ RULE = (
     "Explicit-state BFS; the first event picks one of four initial file databases (GFF3 4-deep chain with directives, with / without an "
     "id-less feature, the chain with recorded duplicates, GTF with inference disabled), followed by up to 3 (quick) / 4 (thorough) "
     "events: GFF3 family 29 = 17 updates (9 bundles x merge strategies; one directive-only, one in another dialect), 6 deletes (id, "
-    "Feature, list, generators of ids / Features), 4 add_relation (plain, with a parent callback, with a child callback rewriting "
-    "Parent, unknown ids), reopen, set_pragmas; GTF family 14 = 9 updates (5 bundles), 3 deletes, reopen, set_pragmas; quick omits 3 "
-    "GFF3 updates, the plain add_relation and 2 GTF updates (25 / 12). Reads are interleaved before every event. Every reached state "
-    "(deduplicated on features, relations, autoincrements, duplicates and the live id counters) is checked: features (row order) and "
-    "relations against the reference model through a second connection; live connection equals file; dialect (live and reopened) and "
-    "directives unchanged; filtered children, region per seqid, counts and look-ups of every id ever stored on the live object; stored "
-    "bins follow the coordinates; library globals unchanged; a fixed battery of 23 kinds of read calls (also naming absent things), "
-    "asked before the last (thorough: every) operation and after it, must be answered as by a freshly opened object; for a final "
-    "update/delete the .bak file (a stale newer .bak is planted first) equals the pre-state. Two scale histories: 1000 of 1002 features "
-    "deleted in one call, then an update; update() fed with merge() output and a long one-shot generator, then an id-less feature whose "
-    "key must be new. Fault runs: from every representative state <= 2 events deep, update bundles B1-B4 (GTF: G2, G3) with the feature "
-    "source raising after k = 0..n items: backup present and equal to the pre-state, failure not swallowed. Non-trivial = every "
-    "distinct state except the empty root history."
+    "Feature, list, generators of ids / Features), 4 add_relation (plain, with a parent and a child callback each marking its feature, "
+    "with a child callback rewriting Parent, unknown ids), reopen, set_pragmas; GTF family 14 = 9 updates (5 bundles), 3 deletes, "
+    "reopen, set_pragmas; quick omits 3 GFF3 updates, the plain add_relation and 2 GTF updates (25 / 12). Reads are interleaved before "
+    "every event. Every reached state (deduplicated on features, relations, autoincrements, duplicates and the live id counters) is "
+    "checked: features (row order) and relations against the reference model through a second connection; live connection equals file; "
+    "dialect (live and reopened) and directives unchanged; filtered children, region per seqid, counts and look-ups of every id ever "
+    "stored on the live object; stored bins follow the coordinates; library globals unchanged; a fixed battery of 23 kinds of read "
+    "calls (also naming absent things), asked before the last (thorough: every) operation and after it, must be answered as by a "
+    "freshly opened object; for a final update/delete the .bak file (a stale newer .bak is planted first) equals the pre-state. Two "
+    "scale histories: 1000 of 1002 features deleted in one call, then an update; update() fed with merge() output and a long one-shot "
+    "generator, then an id-less feature whose key must be new. Fault runs: from every representative state <= 2 events deep, update "
+    "bundles B1-B4 (GTF: G2, G3) with the feature source raising after k = 0..n items: backup present and equal to the pre-state, "
+    "failure not swallowed. Non-trivial = every distinct state except the empty root history."
 )
 ASSUMPTIONS = [
     "small-scope: histories up to the stated depth over the stated alphabet; 'randomly beyond' is not sampled",
     "after a failed operation only the .bak file is checked (the statement does not define the main file's content)",
-    "add_relation between existing features is only issued when the triple is absent; add_relation naming an id that does not exist "
-    "is expected to be refused (FeatureNotFoundError, as the look-up by id does) and to change nothing",
-    "canonical state = rows of features (rowid order), relations, autoincrements, duplicates + the live object's in-memory counters; "
-    "sqlite_stat1, indexes and the number of meta rows are dropped (no public query reads them)",
+    "add_relation between existing features is only issued when the triple is absent; add_relation naming an id that does not exist is expected to be refused (FeatureNotFoundError, as the look-up by id does) and to change nothing",
+    "canonical state = rows of features (rowid order), relations, autoincrements, duplicates + the live object's in-memory counters; sqlite_stat1, indexes and the number of meta rows are dropped (no public query reads them)",
     "the feature an add_relation parent_func / child_func callback returns replaces the stored parent / child",
+    "update() for the bundles B1, B3, B5, G1, G3 and delete(Feature) are called without make_backup and must still leave a .bak equal to the pre-state (the documented default is True)",
 ]
 
 INIT = [
